@@ -131,12 +131,24 @@ def check_tangent_at(seg, t, case, acc, sig):
     return u
 
 
-def check_segment(name, rot, acc, scale=1.0):
-    seg = AB.make(name, scale, rot=rot)
+TS_T = sorted(set(TS + [i / 32.0 for i in range(33)] + [1e-9, 1 - 1e-9, 2.0 ** -52, 1 - 2.0 ** -53]))
+LATTICE = [0j, 1 + 0j, 1j, 1 + 1j, 2 + 0.5j, -0.3 + 0.7j, 2.5e3 + 1e3j]
+
+
+def check_segment(name, rot, acc, scale=1.0, ts=TS, lattice=None):
+    if lattice is not None:
+        pts = [LATTICE[i] for i in lattice]
+        if all(q == pts[0] for q in pts):
+            return
+        seg = {2: Line, 3: QuadraticBezier, 4: CubicBezier}[len(pts)](*pts)
+    else:
+        seg = AB.make(name, scale, rot=rot)
     kind = type(seg).__name__[0]
     size = seg_size(seg)
-    for t in TS:
+    for t in ts:
         case = {'what': 'segment', 'shape': name, 'rot': rot, 't': t, 'scale': scale}
+        if lattice is not None:
+            case = {'what': 'lattice', 'idx': list(lattice), 't': t}
         if kind == 'L' and seg.start == seg.end:
             continue
         u = check_tangent_at(seg, t, case, acc, {'input': 'python'})
@@ -151,6 +163,17 @@ def check_segment(name, rot, acc, scale=1.0):
             want = exact_curvature(list(seg.bpoints()), t)
         if want is None:
             continue
+        cond = 0.0
+        if kind in 'QC':
+            # conditioning of |B' x B''| / |B'|^3 in floating point: the cross product carries an absolute
+            # rounding error ~ eps*max|B'|*max|B''|, divided by speed^3 (only matters next to a zero of the speed)
+            bp = [complex(q) for q in seg.bpoints()]
+            n_ = len(bp) - 1
+            d1 = [n_ * (bp[i + 1] - bp[i]) for i in range(n_)]
+            d2 = [(n_ - 1) * (d1[i + 1] - d1[i]) for i in range(n_ - 1)]
+            from mc.refgeom import de_casteljau
+            sp = abs(de_casteljau(d1, t))
+            cond = 64 * 2.0 ** -52 * max(abs(x) for x in d1) * max(abs(x) for x in d2) / sp ** 3 if sp > 0 else float('inf')
         with warnings.catch_warnings():
             warnings.simplefilter('ignore')
             r = outcome(lambda: seg.curvature(t))
@@ -159,7 +182,7 @@ def check_segment(name, rot, acc, scale=1.0):
             np.seterr(divide='warn', over='warn', under='ignore', invalid='warn')
             acc.violation('numpy_error_state_not_restored', {'kind': kind, 'fn': 'curvature'}, case)
         # relative tolerance: curvature scales like 1/size, so it is tiny for huge curves and huge for tiny ones
-        if r[0] != 'ok' or not abs(float(r[1]) - want) <= 1e-7 * want + 1e-8 / size:
+        if r[0] != 'ok' or not abs(float(r[1]) - want) <= 1e-7 * want + 1e-8 / size + cond:
             acc.violation('curvature_wrong', {'kind': kind, 'scale': 'unit' if scale == 1.0 else ('tiny' if scale < 1 else 'huge')},
                           dict(case, q='curvature'), observed=r, expected=want)
 
@@ -315,13 +338,25 @@ def shards(tier, seed):
     out += [{'what': 'transform', 'shape': n} for n in list(AB.LINES) + list(AB.QUADS) + list(AB.CUBICS) + list(AB.ARCS)]
     out.append({'what': 'path'})
     out.append({'what': 'joints'})
+    if tier == 'thorough':
+        allshapes = list(AB.LINES) + list(AB.QUADS) + list(AB.CUBICS) + list(AB.ARCS)
+        out += [{'what': 'segment', 'shape': n, 'rot': r, 'scale': sc, 'dense': True} for n in allshapes
+                for r in (0, 37, 211) for sc in (1.0, 1e-3, 1e3)]
+        out += [{'what': 'lattice', 'part': [i, 48]} for i in range(48)]
     return out
 
 
 def run_shard(desc, tier, seed):
     acc = core.Acc()
     if desc['what'] == 'segment':
-        check_segment(desc['shape'], desc['rot'], acc, scale=desc.get('scale', 1.0))
+        check_segment(desc['shape'], desc['rot'], acc, scale=desc.get('scale', 1.0), ts=TS_T if desc.get('dense') else TS)
+    elif desc['what'] == 'lattice':
+        i = 0
+        for n in (2, 3, 4):
+            for idx in itertools.product(range(len(LATTICE)), repeat=n):
+                i += 1
+                if i % desc['part'][1] == desc['part'][0]:
+                    check_segment(None, 0, acc, ts=TS_T, lattice=idx)
     elif desc['what'] == 'coincident':
         for hi in range(8):
             for inp in ('python', 'numpy', 'rotated'):
@@ -345,6 +380,8 @@ def space(tier, seed):
     return {'shapes': list(AB.LINES) + list(AB.QUADS) + list(AB.CUBICS) + list(AB.ARCS), 't': TS,
             'coincident_control_shapes': [n for n, _, _ in coincident_shapes()], 'headings': [core.jz(h) for h in HEADINGS],
             'inputs': ['python complex', 'numpy.complex128', 'after the library\'s rotated(30)'],
+            'thorough_only': {'dense_t_grid': TS_T, 'lattice (every assignment of 2..4 control points over it)': [core.jz(z) for z in LATTICE],
+                              'dense segments': 'all shapes x rot {0,37,211} x scale {1,1e-3,1e3}'} if tier == 'thorough' else None,
             'transforms': ['translate', 'rotate30', 'rotate200', 'scale2', 'scale_half', 'reversed']}
 
 
@@ -352,8 +389,10 @@ def replay(case):
     acc = core.ReplayAcc()
     w = case['what']
     if w == 'segment':
-        check_segment(case['shape'], case['rot'], acc, scale=case.get('scale', 1.0))
+        check_segment(case['shape'], case['rot'], acc, scale=case.get('scale', 1.0), ts=[case['t']])
         acc.vlist = [v for v in acc.vlist if v['case'].get('t') == case['t']]
+    elif w == 'lattice':
+        check_segment(None, 0, acc, ts=[case['t']], lattice=tuple(case['idx']))
     elif w == 'coincident':
         check_coincident(case['shape'], case['heading'], case['input'], acc)
         acc.vlist = [v for v in acc.vlist if v['case'].get('t') == case['t']]
